@@ -45,17 +45,18 @@ func (vector *Vector) UnmarshalBinary(data []byte) error {
 // WriteTo implements io.WriterTo and writes a vector of big endian encoded {{.ElementName}}.
 // Length of the vector is encoded as a uint32 on the first 4 bytes.
 func (vector *Vector) WriteTo(w io.Writer) (int64, error) {
-    // encode slice length
-    if err := binary.Write(w, binary.BigEndian, uint32(len(*vector))); err != nil {
-        return 0, err 
-    }
+	// encode slice length
+	var buf [Bytes]byte
+	binary.BigEndian.PutUint32(buf[:4], uint32(len(*vector)))
+	m, err := w.Write(buf[:4])
+	n := int64(m)
+	if err != nil {
+		return n, err
+	}
 
-	n := int64(4)
-
-	var buf [Bytes]byte 
 	for i := 0; i < len(*vector); i++ {
 		BigEndian.PutElement(&buf, (*vector)[i])
-		m, err := w.Write(buf[:])
+		m, err = w.Write(buf[:])
 		n += int64(m)
 		if err != nil {
 			return n, err 
